@@ -102,6 +102,11 @@ func (p *reqPlan) wire(rng *rand.Rand) []byte {
 	if p.ConnHdr != "" {
 		fmt.Fprintf(&b, "Connection: %s\r\n", p.ConnHdr)
 	}
+	if p.ID%5 == 0 {
+		// an upgrade offer the handler does not take (curl --http2 sends one): the request is
+		// answered like every other one, in its place among the pipelined requests
+		b.WriteString("Upgrade: h2c\r\n")
+	}
 	if p.Method == "POST" {
 		body := outb.Payload(reqBodyID(p.ID), p.Body)
 		if p.ChunkReq {
